@@ -436,7 +436,7 @@ func runRD(mode, tier string, shard, shards int, rep *SeqReport) {
 				if wrap {
 					starts = []uint64{0, 1, max/2 - 3, max - uint64(2*w) - 70, max - 1, max}
 				} else {
-					starts = []uint64{0, 1, 1000, max - uint64(2*w) - 140}
+					starts = []uint64{0, 1, 1000, max - uint64(2*w) - 140, max - uint64(w) - 2, max - 3} // also with the newest number within one window of the maximum
 				}
 				var n int64
 				for _, a := range starts {
